@@ -94,6 +94,8 @@ FEATURES += [
 parser { loop { try { case { /[a-z]/ -> { s += [65]; yield WORD; } " " -> { h(); } } } catch (outofspace) { yield FULL; delete s; } } }"""),
     ("feat-append-yield-silent", ["-fyield-support", "-O3"], """yieldcode WORD; out str[3] s; hook h;
 parser { loop { try { case { /[a-z]/ -> { s += [$last]; yield WORD; } " " -> { h(); } } } catch (outofspace) { delete s; } } }"""),
+    ("feat-append-match-yield", ["-fyield-support", "-O3"], """yieldcode GOT, FULL; out str[4] s; hook h;
+parser { loop { try { s += /[a-c]/; yield GOT; } catch (outofspace) { h(); /./; "!"; delete s; } } }"""),
     # ... and handlers that leave the buffer full: every later word overflows again, each time consuming its byte
     ("feat-append-yield-full", ["-fyield-support"], """yieldcode WORD, OVER; out str[3] s;
 parser { loop { try { case { /[a-z]/ -> { s += [65]; yield WORD; } " " -> {} } } catch (outofspace) { yield OVER; } } }"""),
